@@ -216,9 +216,50 @@ def r5_types(ctx, cfgs):
     return r
 
 
+# containers whose iteration order decides indices, generated code or which diagnostic is reported first: they are
+# filled while deserialising (i.e. in file order) and must therefore be sorted collections
+SORTED_FIELDS = {
+    ("leptos_i18n_parser::parse_locales::locale::Locale", "keys"): "BTreeMap",
+    ("leptos_i18n_parser::parse_locales::locale::BuildersKeysInner", "0"): "BTreeMap",
+    ("leptos_i18n_parser::parse_locales::locale::BuildersKeys", "keys"): "BTreeMap",
+    ("leptos_i18n_parser::parse_locales::locale::InterpolationKeys", "components"): "BTreeSet",
+    ("leptos_i18n_parser::parse_locales::locale::InterpolationKeys", "variables"): "BTreeMap",
+    ("leptos_i18n_parser::parse_locales::locale::VarInfo", "formatters"): "BTreeSet",
+    ("leptos_i18n_parser::parse_locales::locale::DefaultedLocales", "mapping"): "BTreeMap",
+    ("leptos_i18n_parser::parse_locales::plurals::Plurals", "forms"): "BTreeMap",
+    ("leptos_i18n_parser::parse_locales::cfg_file::ConfigFile", "extensions"): "BTreeMap",
+    ("leptos_i18n_parser::parse_locales::ForeignKeysPaths", "0"): "BTreeSet",
+    ("leptos_i18n_parser::parse_locales::parsed_value::ForeignKey", "1"): "BTreeMap",
+}
+
+
+def r6_sorted(ctx, cfgs):
+    r = Rule("C10.R6", "collections filled in file order are sorted collections",
+             "serde delivers map entries in file order; a Vec / insertion-ordered container filled from them and iterated later "
+             "(resolution order of foreign keys, first error reported, string indices, generated arms) makes the outcome depend on "
+             "the order of keys inside a file", floor=11)
+    for cfg in cfgs:
+        prog = ctx.mir(cfg)
+        for (adt, field), want in sorted(SORTED_FIELDS.items()):
+            a = prog.adts.get(adt)
+            if a is None:
+                r.viol("R6:%s.%s#missing" % (adt, field), "type %s not found (fail closed)" % adt)
+                continue
+            tys = [f["ty"] for v in a["variants"] for f in v["fields"] if f["name"] == field]
+            if not tys:
+                r.viol("R6:%s.%s#missing" % (adt, field), "field %s.%s not found (fail closed)" % (adt, field))
+                continue
+            bad = [t for t in tys if ("std::collections::%s<" % want) not in t and not t.endswith("locale::BuildersKeysInner")]
+            if bad:
+                r.viol("R6:%s.%s" % (adt, field), "%s.%s is `%s`, must be a %s: its content arrives in file order and is iterated later" % (adt.split("::")[-1], field, bad[0][:90], want))
+            else:
+                r.inst("%s.%s" % (adt.split("::")[-1], field), want, cfg=cfg)
+    return r
+
+
 def run(ctx):
     cfgs = ["main"] if ctx.tier == "quick" else ["main", "yaml", "json5", "bare"]
-    return [r1_unordered(ctx, cfgs), r2_ambient(ctx, cfgs), r4_frontends(ctx), r5_types(ctx, cfgs)]
+    return [r1_unordered(ctx, cfgs), r2_ambient(ctx, cfgs), r4_frontends(ctx), r5_types(ctx, cfgs), r6_sorted(ctx, cfgs[:1])]
 
 
 MANIFEST_ENTRY = {
